@@ -121,7 +121,7 @@ func (c *Ctx) registry() *registry {
 					continue
 				}
 				for i, n := range vs.Names {
-					if n.Name == "cidInit" && i < len(vs.Values) {
+					if n.Name == c.curVal("postscript", "cidInit") && i < len(vs.Values) {
 						if cl, ok := vs.Values[i].(*ast.CompositeLit); ok {
 							collect("cidInit", cl)
 						}
